@@ -408,6 +408,17 @@ func checkC10(c *hx.Ctx) {
 	for i := range seeds {
 		seeds[i] = rng.U64()
 	}
+	// the member mutations are evaluated under the permissive base configuration and under restrictive ones (a single
+	// algorithm / curve, fewer patch actions, another nonce size): accept => predicate must hold under each of them
+	restrictA := base
+	restrictA.SignatureAlgorithms, restrictA.KeyAlgorithms = []string{"ES256"}, []string{"P-256"}
+	restrictA.Patches = []string{"add-public-keys", "add-services"}
+	restrictA.MultihashAlgorithms = []uint{ref.SHA256}
+	restrictB := base
+	restrictB.SignatureAlgorithms, restrictB.KeyAlgorithms = []string{"EdDSA", "ES256K"}, []string{"Ed25519", "secp256k1"}
+	restrictB.NonceSize = 8
+	restrictB.MaxOperationHashLength = 50
+	extraProtos := []protocol.Protocol{restrictA, restrictB}
 	hx.Parallel(len(combos), 8, func(ci int) {
 		cb := combos[ci]
 		r := hx.NewRng(seeds[ci], "b")
@@ -460,6 +471,11 @@ func checkC10(c *hx.Ctx) {
 					if !aip("Parse", base, in, "member:"+v.typ+":"+strings.Join(path, ".")) {
 						return
 					}
+					for pi, ep := range extraProtos {
+						if !aip("Parse", ep, in, fmt.Sprintf("member-restricted%d:%s:%s", pi, v.typ, strings.Join(path, "."))) {
+							return
+						}
+					}
 					if v.typ == "create" && len(path) <= 2 {
 						if !aip("Handler", base, in, "handler-member:"+strings.Join(path, ".")) {
 							return
@@ -507,6 +523,11 @@ func checkC10(c *hx.Ctx) {
 						t["signedData"] = jwsS
 						if !aip("Parse", base, ref.MustJCS(t), "signed-member:"+v.typ+":"+strings.Join(path, ".")) {
 							return
+						}
+						for pi, ep := range extraProtos {
+							if !aip("Parse", ep, ref.MustJCS(t), fmt.Sprintf("signed-member-restricted%d:%s:%s", pi, v.typ, strings.Join(path, "."))) {
+								return
+							}
 						}
 					}
 				}
